@@ -435,6 +435,43 @@ def opProxyUserinfo (j : Json) : R Json := do
   return Json.mkObj [("userinfo", enc (userinfo u p)), ("user_back", enc (unquote (quote u))), ("password_back", enc (unquote (quote p)))]
 
 
+
+/-- L2 whole-run model.
+    {"tree":[[path,size,tag]...], "meta":[[path,size,tag]...], "pool":[[path,size,tag,[chunk...]]...], "skip":[path...],
+     "crash": k | null}  ->  transfers / removals / final pool listing (after the run, or after crash at k followed by a run) -/
+def opMirrorRun (j : Json) : R Json := do
+  let dec3 := fun (e : Json) => do
+    let a ← e.getArr?
+    match a.toList with
+    | [p, sz, tg] => pure ((← decPath p), ({ size := ← sz.getNat?, tag := ← tg.getNat? } : Mirror.File))
+    | _ => throw "bad file entry"
+  let tree ← (← fArr j "tree").mapM dec3
+  let mfiles ← (← fArr j "meta").mapM dec3
+  let pool ← (← fArr j "pool").mapM fun e => do
+    let a ← e.getArr?
+    match a.toList with
+    | [p, sz, tg, cs] =>
+      pure ({ path := ← decPath p, size := ← sz.getNat?, tag := ← tg.getNat?, chunks := ← (← cs.getArr?).toList.mapM (·.getNat?) } : Mirror.PoolNeed)
+    | _ => throw "bad pool entry"
+  let skip ← (← fArr j "skip").mapM decPath
+  let t0 : Mirror.Tree := { dists := fun _ => none, pool := fun p => (tree.find? (·.1 = p)).map (·.2), dom := tree.map (·.1) }
+  let need : Mirror.Need := { mfiles := mfiles, pool := pool, keepExtra := fun p => skip.any (fun s => isPrefix s p) }
+  let t1 := match fOpt j "crash" with
+    | some k => Mirror.crash t0 need (k.getNat?.toOption.getD 0)
+    | none => t0
+  let t2 := Mirror.run t1 need
+  let names := (t2.dom.eraseDups.filter fun p => (t2.pool p).isSome).toArray.qsort (fun a b => a < b) |>.toList
+  let enc := fun (p : Path) => match t2.pool p with
+    | some f => Json.arr #[encPath p, Json.num f.size, Json.num f.tag]
+    | none => Json.null
+  return Json.mkObj [
+    ("transfers", Json.arr ((Mirror.transfers t1 need).map encPath).toArray),
+    ("removals", Json.arr ((Mirror.removals t1 need).map encPath).toArray),
+    ("nops", Json.num (Mirror.runOps t0 need).length),
+    ("final", Json.arr (names.map enc).toArray),
+    ("dists", Json.arr ((mfiles.map (·.1)).eraseDups.map fun p => match t2.dists p with
+        | some f => Json.arr #[encPath p, Json.num f.size, Json.num f.tag] | none => Json.null).toArray)]
+
 def dispatch (j : Json) : R Json := do
   let op ← fStr j "op"
   match op with
@@ -464,6 +501,7 @@ def dispatch (j : Json) : R Json := do
   | "http_classify" => opHttpClassify j
   | "http_transport" => opHttpTransport j
   | "proxy_userinfo" => opProxyUserinfo j
+  | "mirror_run" => opMirrorRun j
   | _ => throw s!"unknown op {op}"
 
 partial def loop (h : IO.FS.Stream) (out : IO.FS.Stream) : IO Unit := do
